@@ -217,6 +217,26 @@ def extra(case, sched, starts, res):
         outer = 1 if c6.get("outer") else 0
         if started_n - outer > max_attempts:
             fails.append(("fanout-started-too-often", "the fan-out was started %d times, at most %d attempts are allowed" % (started_n - outer, max_attempts)))
+    # nothing a sibling does after the fan-out has failed adds history: from a (Parallel|Map)StateFailed event up to the next (re-)entry of a fan-out state (a Retry) no state of a
+    # Branch/Iteration is entered or exited, and (every Task outside the Branches succeeds in these machines, unless the outer sibling is the failing one) no task failure is logged
+    if hist and case.get("type", "STANDARD") == "STANDARD":
+        import re as _re
+        inside = _re.compile(r"^(B\d+[TUWZ]|IT)$")
+        window = None
+        for k_, e in enumerate(hist):
+            t_ = e["type"]
+            if t_ in ("ParallelStateFailed", "MapStateFailed"):
+                window = k_
+            elif t_ in ("ParallelStateEntered", "MapStateEntered"):
+                window = None
+            elif window is not None:
+                nm_ = ((e.get("stateEnteredEventDetails") or e.get("stateExitedEventDetails") or {}).get("name")) or ""
+                if inside.match(nm_):
+                    fails.append(("sibling-history-after-fanout-failure:" + t_, "%s of %r is event #%d, the fan-out failed at event #%d (%s)" % (t_, nm_, k_ + 1, window + 1, [x["type"] for x in hist[window:k_ + 1]][:8])))
+                    break
+                if t_ in ("LambdaFunctionFailed", "LambdaFunctionTimedOut", "TaskFailed", "TaskTimedOut") and not c6.get("outer_sibling_fails"):
+                    fails.append(("sibling-history-after-fanout-failure:" + t_, "%s is event #%d, the fan-out failed at event #%d (%s)" % (t_, k_ + 1, window + 1, [x["type"] for x in hist[window:k_ + 1]][:8])))
+                    break
     # no request by a sibling of the failed attempt after the failure (a task error reply) was processed
     pr = info.get("probe") or {}
     reqs = pr.get("requests", [])
